@@ -129,7 +129,15 @@ def c11_cases(chk, quick):
             c["elems"] = "small"
         elif i % 4 == 3:
             c["hasher"] = "ident"          # a true identity hasher: hashes are neighbouring small integers
-            c["elems"] = "small"
+            c["elems"] = "small" if i % 8 == 3 else "sentinel"   # ... or the extreme 64-bit values (0, 2^64-1, 2^63, ...)
+    # sketch sizes beyond one byte (and, thorough, beyond two bytes) on a few random sequences
+    for mm in ([300, 1000] if quick else [257, 300, 1000, 5000, 70000]):
+        for _ in range(2):
+            n = rnd.randint(20, 60)
+            seq = [rnd.randint(1, 12) for _ in range(n)]
+            s2 = list(seq)
+            rnd.shuffle(s2)
+            cases.append(dict(m=mm, l=rnd.choice([1, 2]), seqs=[seq, s2, list(reversed(seq))]))
     return cases
 
 
